@@ -315,7 +315,7 @@ def scenarios(quick, rng):
                 r.execute()
                 out.append(r)
     cfgs = [(3, 1, 1), (3, 2, 1), (3, 1, 2), (2, 1, 1)]
-    for i in range(40 if quick else 400):
+    for i in range(40 if quick else 600):
         N, H, M = cfgs[i % len(cfgs)]
         out.append(random_run(rng, N, H, M, rng.randrange(1, 4)))
     return out
